@@ -1,6 +1,7 @@
 # C02 -- existing outputs are never re-executed or modified.
 import os, random
 from tools import vlib, t3
+from tools import ks
 
 MODULE = "PropC02"
 THEOREMS = ["C02_code_conforms", "C02_skip", "C02_untouched", "C02_rerun_executes_nothing", "C02_skipped_outputs_are_inputs"]
@@ -163,10 +164,12 @@ def run(rep, tier, seed):
     results = [r for r in t3.run_many(case, [(seed, i) for i in range(n)]) if r]
     results += [r for r in t3.run_many(interrupted_case, [(seed, i) for i in range(n // 4)]) if r]
     results += [r for r in t3.run_many(tagged_rerun_case, [(seed, i) for i in range(n // 10)]) if r]
+    results += t3.run_many(ks.ks_case, [(seed, i, ("rerun",)) for i in range(n // 8)])
     t3.report_t3(rep, MODULE, proved, results, "T3 planted outputs / re-run")
     rep.cov["evaluations"] = len(results) * 2
     rep.cov["distinct_nontrivial"] = len({r["spec"] for r in results if r["nskip"] >= 1})
     rep.cov["rule"] = "random workflows (shell and Go-function processes); the outputs of a random subset of tasks are pre-created with arbitrary bytes; run on the real library: file set and bytes equal the model's prediction computed from the planted bytes, no command of a skipped task in the trace, (inode, mtime-ns, bytes) of planted files unchanged; then the completed workflow is run again in place: no command, no file changed; workflows in which a fanned-out port feeds a tagging component and a process whose output name depends on the tags are run twice in place (no command, no new or changed file in the second run); non-trivial = at least one task skipped"
+    rep.cov["rule"] += "; plus kitchen-sink workflows (tools/ks.py: random workflows decorated with tagging components, sub-streams, Concatenator / FileSplitter, streamed pairs, component parameter feeders, Go-function and multi-core processes, RunTo) judged by the model-free re-run oracle"
     rep.cov["samples"] = [results[0]["spec"]]
     rep.notes["input_distribution"] = {"runs": len(results), "tasks": sum(r["ntasks"] for r in results), "skipped_tasks": sum(r["nskip"] for r in results),
                                        "gofunc_processes": sum(r["gofunc"] for r in results)}
